@@ -4,6 +4,7 @@ CONSTANTS
   Lines <- MC_Lines_thorough
   MaxCount = 3
   BadBytes = "BADBYTES"
+  FailModes = {FALSE, TRUE}
 CONSTRAINT Bounded
 VIEW View
 INVARIANT RegIsBalance
